@@ -21,3 +21,5 @@ int vp_call_guarded2(uint32_t (*f)(uint8_t*, uint8_t*), uint8_t* a, uint8_t* b, 
   catch (...) { *code = 599; *ret = 0; return 1; }
 }
 }
+// scheduling hook of include/pistache/mailbox.h (guard PISTACHE_VERIF_HOOKS): a no-op outside the C13 replay driver
+extern "C" __attribute__((weak)) void pistache_verif_yield(int) {}
